@@ -110,9 +110,24 @@ def fingerprint(obj, out: Optional[Dict[str, Entry]] = None, path: str = "", see
         # and getters hand out the internal tensors, so a tensor sharing a slot storage aliases it too (resource S).
         gid = ("G", id(obj))
         out[(path or "<self>") + ".align_corners"] = (("bool",), str(bool(obj._align_corners)), frozenset([gid]))
+        allres = frozenset([gid])
         for slot in ("_size", "_center", "_spacing", "_direction"):
             m, h, res = tensor_entry(getattr(obj, slot))
             out[f"{path or '<self>'}{slot}"] = (m[:4] + m[5:], h, (res or frozenset()) | {gid})
+            allres = allres | (res or frozenset())
+        if not path:
+            # what a pool Grid *answers* when asked for derived quantities (pure functions of the slots on the unchanged
+            # library): an implementation that memoises them must not let a caller's edit of a returned tensor, or a
+            # copy, change later answers.  The entries live in everything the Grid consists of, so a legitimate in-place
+            # change of the Grid (or of a slot tensor a getter handed out) explains a change here as well.
+            try:
+                with torch.no_grad():
+                    c_ = obj.coords()
+                    a_ = obj.affine()
+                out["<self><answers>coords"] = (("derived", tuple(c_.shape)), hashlib.blake2b(c_.contiguous().numpy().tobytes(), digest_size=8).hexdigest(), allres)
+                out["<self><answers>affine"] = (("derived", tuple(a_.shape)), hashlib.blake2b(a_.contiguous().numpy().tobytes(), digest_size=8).hexdigest(), allres)
+            except Exception as e:  # noqa: BLE001
+                out["<self><answers>"] = (("raises", type(e).__name__), None, allres)
         return out
     if isinstance(obj, Cube):
         kid = ("K", id(obj))
